@@ -154,6 +154,114 @@ def run_coupling(tid, kind, grid, atoms, unit, method, fv, sigma, a, maxlvl):
     return cf.resolve(pos.resolve(t))
 
 
+def level_event_nd(cp, pms, lvl, uni, d, cf):
+    """one level of the REAL Levy-copula coupling on a lattice grid (positions in lattice units, exact integers);
+    the coupling map of every fine increment is observed by sweeping the coupling uniform over a lattice"""
+    import itertools
+    grid = cp.grid
+    axes = [np.array(grid.axes[k], dtype=float) for k in range(d)]
+    oc = [int(v) for v in grid.origin_coordinate.value]
+    mids = [[0.5 * (x + y) for x, y in zip(a, a[1:])] for a in axes]
+    ev = {"e": "LevelNd", "lvl": lvl, "ax": [[exact_int(x / U) for x in a] for a in axes],
+          "bd": [[exact_int(x / U) for x in m] for m in mids], "org": [o + 1 for o in oc]}
+    sim = cp._path_coupling_simulation
+    state_of = getattr(sim, "_CouplingLevyCopulaSimulation__coupling_state", None)
+    mass = cp.fine_process.model.mass
+    lookup = [{exact_int(x / U): j + 1 for j, x in enumerate(a)} for a in axes]
+
+    def index_of(value):
+        v = np.ravel(np.asarray(value, dtype=float))
+        if v.size != d:
+            return [-1] * d
+        return [lookup[k].get(exact_int(v[k] / U), -1) for k in range(d)]
+    moves, evens = [], []
+    if lvl >= 1 and state_of is not None:
+        for js in itertools.product(*[range(len(a)) for a in axes]):
+            inc = tuple(j - o for j, o in zip(js, oc))
+            if all(v == 0 for v in inc):
+                continue
+            idx = [j + 1 for j in js]
+            if all(v % 2 == 0 for v in inc):
+                uni.value = 0.5
+                evens.append([idx, index_of(state_of(inc))])
+                continue
+            lo = [a[0] if j == 0 else m[j - 1] for a, m, j in zip(axes, mids, js)]
+            hi = [a[-1] if j == len(a) - 1 else m[j] for a, m, j in zip(axes, mids, js)]
+            rate = int(round(mass(tuple(lo), tuple(hi))))
+            if rate <= 0:
+                continue
+            n = 2 * rate
+            outs = {}
+            for i in range(n):
+                uni.value = (2 * i + 1) / (2.0 * n)
+                t = tuple(index_of(state_of(inc)))
+                outs[t] = outs.get(t, 0) + 1
+            moves.append([idx, n, [[list(t), c] for t, c in sorted(outs.items())]])
+    ev["moves"], ev["evens"] = moves, evens
+    ev["bad"] = count_bad({"ax": ev["ax"], "bd": ev["bd"]})
+    # coefficients and drifts of the two components
+    ev["zero"] = cf.add(0.0)
+    dmF = np.real(np.asarray(cp._diffusion_matrix_h, dtype=complex))
+    ev["dmF"] = [[cf.add(float(x)) for x in row] for row in dmF]
+    if cp._diffusion_matrix_2h is not None:
+        dmC = np.real(np.asarray(cp._diffusion_matrix_2h, dtype=complex))
+        ev["dmC"] = [[cf.add(float(x)) for x in row] for row in dmC]
+    else:
+        ev["dmC"] = []
+    dp = pms[-1].deterministic_path
+    v0, v1 = np.array(dp(np.zeros(1)), dtype=float), np.array(dp(np.ones(1)), dtype=float)
+    slope = (v1 - v0)
+    if lvl >= 1:
+        ev["muF"] = [cf.add(float(x)) for x in np.ravel(slope[0])]
+        ev["muC"] = [cf.add(float(x)) for x in np.ravel(slope[1])]
+    else:
+        ev["muF"] = [cf.add(float(x)) for x in np.ravel(slope)]
+        ev["muC"] = []
+    ev["muProc"] = [cf.add(float(x)) for x in np.ravel(cp.fine_process.process_drift())]
+    if lvl >= 1:
+        ws = np.array([(k + 1) * np.array([1.0, 2.0, -4.0]) for k in range(d)])
+        cp.fine_process._path_simulation._brownian_increments = deque([ws.copy()])
+        try:
+            df, dc = sim.simulate_diffusion_with_coupling(np.ones(3))
+            cum = np.cumsum(ws, axis=1)
+            ev["diffF"] = [[cf.add(float(df[k][i]) / cum[k][i]) for i in range(3)] for k in range(d)]
+            ev["diffC"] = [[cf.add(float(dc[k][i]) / cum[k][i]) for i in range(3)] for k in range(d)]
+        except Exception:
+            ev["diffF"], ev["diffC"] = [], []
+    else:
+        ev["diffF"], ev["diffC"] = [], []
+    return ev
+
+
+def run_copula_coupling(tid, kind, grid, atoms, d, method, sigmas, a_us, maxlvl):
+    """the REAL CouplingProcessLevyCopula over an atomic copula model (finite variation), through next_level"""
+    from rpylib.montecarlo.configuration import ConfigurationMultiLevel
+    from rpylib.montecarlo.path import create_path
+    from rpylib.process.coupling.couplinglevycopula import CouplingProcessLevyCopula
+    cf = Pool(rel=1e-9)
+    hdr = {"kind": kind, "d": d, "atoms": [[list(map(int, k)), int(w)] for k, w in atoms], "fv": True}
+    ev = []
+    try:
+        model = atomic.atom_copula_model(atoms, d, drifts=[x * U for x in a_us])
+        for m, sg in zip(model.models, sigmas):
+            m.levy_triplet.sigma = sg * U
+        cp = CouplingProcessLevyCopula(levy_copula_model=model, grid=grid, method=method)
+        uni = OneUniform()
+        cp._uniform = uni
+        product = product_for_init()
+        cp.initialisation(product)
+        pms = [create_path(ConfigurationMultiLevel(), cp.fine_process.deterministic_path)]
+        cp.pre_computation(mc_paths=1, product=product)
+        ev.append(level_event_nd(cp, pms, 0, uni, d, cf))
+        for lvl in range(1, maxlvl + 1):
+            cp.next_level(mc_paths=1, path_managers=pms, product=product)
+            ev.append(level_event_nd(cp, pms, lvl, uni, d, cf))
+    except Exception as ex:
+        import traceback
+        ev.append({"e": "Raise", "what": type(ex).__name__ + ": " + str(ex)[:80], "tb": traceback.format_exc()[-600:]})
+    return cf.resolve({"tid": tid, "hdr": hdr, "ev": ev})
+
+
 def run_sde_coupling(tid, grid, atoms, method, fv, sigma, maxlvl):
     """the SDE coupling built on the 1-d coupling: coarse coefficient / drift handed over by next_level"""
     from rpylib.model.levydrivensde.levydrivensde import LevyDrivenSDEModel
@@ -233,6 +341,17 @@ def main():
                 f.write(json.dumps(t, separators=(",", ":")) + "\n")
         print(len(traces))
         return
+    # ---- the Levy-copula coupling (2-d, 3-d) on lattice grids with aliased axis storage, as the constructors build them --
+    cop_cases = [(2, 1, 1, 2), (2, 2, 1, 2), (2, 1, 2, 1), (3, 1, 1, 1)] + ([] if quick else [(2, 2, 2, 2), (2, 3, 1, 2), (3, 1, 1, 2), (3, 2, 1, 1)])
+    for ci, (d, nl, nr, lv) in enumerate(cop_cases):
+        for rep in range(1 if quick else 2):
+            step = 32
+            axis = np.array([j * step * U for j in range(-nl, nr + 1)])
+            grid = CTMCGrid(h=step * U, origin_coordinate=nl, axes=[axis] * d)
+            atoms = atomic.joint_atoms_in_box([-nl * step] * d, [nr * step] * d, d, rng, 70 if d == 2 else 120, wmax=4)
+            method = [SamplingMethod.INVERSION, SamplingMethod.BINARYSEARCHTREEADAPTED][(ci + rep) % 2]
+            traces.append(run_copula_coupling(f"cp{len(traces)}", f"copula{d}d:" + method.name, grid, atoms, d, method,
+                                              [rng.choice([0, 8, 16]) for _ in range(d)], [rng.randint(-9, 9) for _ in range(d)], lv))
     # non-lattice grids (the grid's own cell boundary is not the arithmetic mid-point): atoms are placed after the
     # grids of ALL levels have been seen, one in every elementary interval
     from harness.models import levy_models
